@@ -105,6 +105,8 @@ def atom_class(a) -> str:
         kind = op.replace(" ", "")
     if fam in ("pyv", "pyfv", "rel") and "." not in a["val"].replace(".*", "") and op not in ("in", "not in"):
         kind += "1seg"
+    if fam == "pyv" and a["val"].replace(".*", "").count(".") >= 2 and op not in ("in", "not in"):
+        kind += "3seg"
     if fam == "str" and a["val"][:1].isdigit():
         fam = "strnum"
     if fam == "pyv" and op in ("in", "not in") and "," not in a["val"] and " " in a["val"]:
